@@ -17,7 +17,11 @@ def on_acquire(ex, lock):
     clf = ex.ghost.get('clf')
     if clf is None or lock is not clf.fields.get('lock'):
         return
-    if clf.fields.get('device') is not None and ex.choose(2) == 1:
+    dev = clf.fields.get('device')
+    if dev is not None and ex.choose(2) == 1:
+        # ... by close(): the driver object is closed and the reference dropped
+        if isinstance(dev, SObj) and 'closed' in dev.fields:
+            dev.fields['closed'] = True
         clf.fields['device'] = None
 
 
